@@ -1325,6 +1325,10 @@ class H2Connection:
         if acknowledged_size < 0:
             raise ValueError("Cannot acknowledge negative data")
 
+        # This may emit WINDOW_UPDATE frames, which is not allowed once the
+        # connection has been closed.
+        self.state_machine.process_input(ConnectionInputs.SEND_WINDOW_UPDATE)
+
         frames = []
 
         conn_manager = self._inbound_flow_control_window_manager
